@@ -871,17 +871,18 @@ def r_purequery(repo, tier):
     while changed:
         changed = False
         for x in ast.walk(f.node):
-            if isinstance(x, ast.Assign) and isinstance(x.targets[0], ast.Name):
+            if isinstance(x, ast.Assign) and isinstance(x.targets[0], (ast.Name, ast.Tuple)):
                 src = set()
                 for z in ast.walk(x.value):
                     if isinstance(z, ast.Attribute) and z.attr.startswith("p_"):
                         src.add(z.attr)
                     elif isinstance(z, ast.Name) and z.id in deps:
                         src |= deps[z.id]
-                t = x.targets[0].id
-                if not src <= deps.get(t, set()):
-                    deps[t] = deps.get(t, set()) | src
-                    changed = True
+                # `base, pageoff = helper(...)`: every unpacked name may carry every dependency of the value
+                for tn in [k.id for k in ast.walk(x.targets[0]) if isinstance(k, ast.Name)]:
+                    if not src <= deps.get(tn, set()):
+                        deps[tn] = deps.get(tn, set()) | src
+                        changed = True
     seeks = [x for x in ast.walk(f.node) if isinstance(x, ast.Call) and isinstance(x.func, ast.Attribute) and x.func.attr == "seek"]
     if not seeks:
         raise AnalysisError("R-PUREQUERY: no seek() in Elf.loadsegment")
